@@ -67,12 +67,16 @@ def load_plugins(config: 'ConfigService', custom=None) -> List['Plugin']:
             if not plugin_instance.is_active():
                 logging.debug("Plugin %s is not active.", plugin_instance.name)
                 continue
-            loaded.append(plugin_instance)
+            # a plugin whose order cannot be read, or is not a number, is skipped like one that cannot be constructed
+            order = plugin_instance.order() or 0
+            if not isinstance(order, (int, float)):
+                raise TypeError("order of plugin %s is not a number: %r" % (plugin_instance.name, order))
+            loaded.append((order, plugin_instance))
         except Exception as e:
             logging.debug("Could not load plugin %s: %s", plugin, e)
 
-    loaded.sort(key=lambda pl: pl.order() or 0)
-    return loaded
+    loaded.sort(key=lambda entry: entry[0])
+    return [plugin_instance for _, plugin_instance in loaded]
 
 
 class Plugin(abc.ABC):
